@@ -796,11 +796,14 @@ Definition wblock_safe (s : st) (b_start b_end : Z) : bool :=
       (Z.max 0 (start_byte - (total - cap)) =? Z.max 0 (start_byte - cap))
   | _ => false
   end.
+(* number_of_data_chunks is a 4-digit hexadecimal field of the node header (the header's encoding is C13's) *)
+Definition nchunks_ok (s : st) : bool := h_n (s_h s) <? 65535.
 Definition safe_step (s : st) (o : op) : bool :=
   match o with
   | PutDims _ dims => dims_ok dims
-  | WriteAll _ => wall_safe s
-  | WriteBlock b e _ => wblock_safe s b e
+  | WriteAll _ => wall_safe s && nchunks_ok s
+  | WriteBlock b e _ => wblock_safe s b e && nchunks_ok s
+  | WriteStrided _ _ => nchunks_ok s
   | _ => true
   end.
 
